@@ -107,7 +107,3 @@ def run(ctx: core.Ctx) -> core.Report:
         rep.dist["replies=%d" % len(sent)] += 1
     return rep
 
-
-def replay(ctx, data):
-    print(data)
-    return 0
